@@ -227,6 +227,7 @@ pub fn build_abiding_ext(g: &Genome, ext: Ext) -> Built {
             v1_flip: false,
             view_of,
             specific_eh: None,
+            imported: false,
         });
         discs.push(disc);
         claimed.push(false);
@@ -250,6 +251,7 @@ pub fn build_abiding_ext(g: &Genome, ext: Ext) -> Built {
             v1_flip: false,
             view_of: None,
             specific_eh: None,
+            imported: false,
         });
         discs.push(Disc::BorrowOnly);
         claimed.push(false);
@@ -404,7 +406,7 @@ pub fn build_abiding_ext(g: &Genome, ext: Ext) -> Built {
     // `.error_handler(..)`; that handler (not the one registered for the error type) handles their failures
     for t in 0..n {
         if let (Some(e), true) = (types[t].fallible, types[t].life != Life::Singleton) {
-            if (g.types[t].disc / 16) % 3 == 0 {
+            if (g.types[t].disc / 16) % 3 == 0 && !types[t].imported {
                 types[t].specific_eh = Some(comps.len());
                 comps.push(CompSpec { kind: CompKind::ErrHandler { err: e, default: false }, inputs: vec![], fallible: None, is_async: t % 2 == 0, route: None, fw: vec![], gens: vec![] });
             }
@@ -428,6 +430,14 @@ pub fn build_abiding_ext(g: &Genome, ext: Ext) -> Built {
         types[*t].variants = 2;
         // the two constructors of a type need not agree on fallibility
         types[*t].v1_flip = (*t + g.n_errs as usize) % 2 == 0;
+    }
+    // ---- a quarter of the constructors without registration-time overrides are registered through an import of
+    // the module they live in (`bp.import(from![..])`), which the documentation calls equivalent to `bp.constructor`
+    for t in 0..n {
+        let ty = &types[t];
+        if (g.types[t].disc / 8) % 4 == 1 && !(ty.life == Life::Singleton && ty.fallible.is_some()) && ty.view_of.is_none() && !ty.prebuilt && ty.variants == 1 && ty.specific_eh.is_none() {
+            types[t].imported = true;
+        }
     }
 
     // ---- blueprint
@@ -1271,6 +1281,7 @@ pub fn plant(base: &AppSpec, rule: usize, raw: u16) -> Option<Planted> {
                 v1_flip: false,
                 view_of: None,
                 specific_eh: None,
+                imported: false,
             });
             spec.bp.insert(0, Reg::Ctor { ty: t, variant: 0 });
             spec.comps[c].inputs.push((t, Mode::Move));
@@ -1538,7 +1549,7 @@ pub fn apply_attr_styles(base: &AppSpec, raw: u64) -> Styled {
     };
     let mut n_overrides = 0;
     for t in spec.types.iter_mut() {
-        if t.prebuilt {
+        if t.prebuilt || t.imported {
             continue;
         }
         if next() % 3 == 0 {
@@ -1576,6 +1587,7 @@ pub fn apply_attr_styles(base: &AppSpec, raw: u64) -> Styled {
             v1_flip: false,
             view_of: None,
             specific_eh: None,
+            imported: false,
         });
         spec.bp.insert(0, Reg::Ctor { ty: i, variant: 0 });
         unused.push((i, allow));
@@ -1615,6 +1627,7 @@ pub fn build_stage_stress(raw: u64) -> AppSpec {
         v1_flip: false,
         view_of: None,
         specific_eh: None,
+        imported: false,
     };
     // T0: request-scoped clone-if-necessary; T1: singleton clone-if-necessary; T2: request-scoped Copy; T3: transient built from &T0
     let mut types = vec![mk_type(Life::Request, false), mk_type(Life::Singleton, false), mk_type(Life::Request, true)];
@@ -1742,6 +1755,7 @@ pub fn build_naming_stress(raw: u64) -> AppSpec {
             v1_flip: false,
             view_of: None,
             specific_eh: None,
+            imported: false,
         });
     }
     let n_errs = n_single;
@@ -1918,6 +1932,7 @@ pub fn build_startup_stress(raw: u64) -> AppSpec {
         v1_flip: false,
         view_of: None,
         specific_eh: None,
+        imported: false,
     };
     let mut types = vec![];
     // T0: base singleton; T1: transient (from &T0 or from nothing); T2: transient built from a T1
@@ -2012,6 +2027,7 @@ pub fn build_order_stress(raw: u64) -> AppSpec {
         v1_flip: false,
         view_of: None,
         specific_eh: None,
+        imported: false,
     };
     let n_pairs = 2 + next() % 4;
     let mut types = vec![];
